@@ -36,12 +36,16 @@ fn unit_rows() -> Vec<String> {
                 Unit::Mass(m) => ("mass", Some(m.get_per_kilo().to_bits())),
                 Unit::Storage(s) => ("storage", Some(s.get_per_byte().to_bits())),
                 Unit::Temperature(_) => ("temperature", None),
+                #[allow(unreachable_patterns)]
+                _ => ("other", None),
             };
             let variant = match u {
                 Unit::Distance(d) => format!("{:?}", d),
                 Unit::Mass(d) => format!("{:?}", d),
                 Unit::Storage(d) => format!("{:?}", d),
                 Unit::Temperature(d) => format!("{:?}", d),
+                #[allow(unreachable_patterns)]
+                _ => "other".to_string(),
             };
             format!(
                 "{{\"index\":{},\"kind\":{},\"variant\":{},\"bits\":{},\"symbol\":{},\"type_string\":{}}}",
